@@ -260,11 +260,18 @@ func TestHistory(t *testing.T) { propHist.Run(t) }
 // ---- concurrent requests under the cooperative scheduler ------------------------------------------------
 
 type ConcCase struct {
-	Algo  string
-	Store string // memory | vk
-	Limit int
-	Keys  []string // one entry per concurrent request
-	Picks []int    // scheduler choices
+	Algo             string
+	Store            string // memory | vk
+	Limit            int
+	SkipOK, SkipFail bool
+	Keys             []string // one entry per concurrent request
+	Statuses         []int    // status the handler answers for the i-th concurrent request
+	Picks            []int    // scheduler choices
+	Tail             int      // sequential requests (status 200 / 500 so that they are never skipped) sent per key after the phase
+}
+
+func (c ConcCase) skipped(status int) bool {
+	return (c.SkipOK && status < 400) || (c.SkipFail && status >= 400)
 }
 
 func checkConc(c ConcCase) vk.Verdict {
@@ -279,21 +286,27 @@ func checkConc(c ConcCase) vk.Verdict {
 	}
 	var mu sync.Mutex
 	ran := map[string]int{}
-	app := newLimiter(Case{Algo: c.Algo, Exp: 60, Max: c.Limit}, st, func(ctx fiber.Ctx) {
+	skippedRan := map[string]int{}
+	app := newLimiter(Case{Algo: c.Algo, Exp: 60, Max: c.Limit, SkipOK: c.SkipOK, SkipFail: c.SkipFail}, st, func(ctx fiber.Ctx) {
 		k := ctx.Query("k")
 		s.Yield("handler<" + k)
 		mu.Lock()
 		ran[k]++
+		if st, _ := strconv.Atoi(ctx.Query("st")); c.skipped(st) {
+			skippedRan[k]++
+		}
 		mu.Unlock()
 		s.Yield("handler>" + k)
 	})
 	app.Handler()
-	statuses := make([]int, len(c.Keys))
 	for i, k := range c.Keys {
 		i, k := i, k
+		status := 200
+		if i < len(c.Statuses) {
+			status = c.Statuses[i]
+		}
 		s.Spawn(i, func() {
-			r := vk.Do(app, "GET", fmt.Sprintf("/?k=%s&lim=%d", k, c.Limit))
-			statuses[i] = r.Response.StatusCode()
+			vk.Do(app, "GET", fmt.Sprintf("/?k=%s&lim=%d&st=%d", k, c.Limit, status))
 		})
 	}
 	pi := 0
@@ -305,40 +318,57 @@ func checkConc(c ConcCase) vk.Verdict {
 		pi++
 		return p
 	})
-	ctx := fmt.Sprintf("%s/%s limit %d, concurrent keys %v, schedule %v", c.Algo, c.Store, c.Limit, c.Keys, s.Trace)
+	ctx := fmt.Sprintf("%s/%s limit %d skipOK=%v skipFail=%v, concurrent keys %v statuses %v, schedule %v", c.Algo, c.Store, c.Limit, c.SkipOK, c.SkipFail, c.Keys, c.Statuses, s.Trace)
 	if len(res.Panics) > 0 {
 		return vk.Failf("%s: panic: %s", ctx, res.Panics[0])
 	}
 	if res.Deadlock {
 		return vk.Failf("%s: deadlock, stuck tasks %v", ctx, res.Stuck)
 	}
+	if st != nil {
+		st.Sched = nil
+	}
+	s = nil
 	perKey := map[string]int{}
 	for _, k := range c.Keys {
 		perKey[k]++
 	}
+	// sequential tail in the same window: requests that are never given back
+	tailStatus := 200
+	if c.SkipOK {
+		tailStatus = 500
+	}
+	for k := range perKey {
+		for j := 0; j < c.Tail; j++ {
+			vk.Do(app, "GET", fmt.Sprintf("/?k=%s&lim=%d&st=%d", k, c.Limit, tailStatus))
+		}
+	}
 	overlap := false
 	for k, n := range perKey {
-		want := n
-		if want > c.Limit {
-			want = c.Limit
+		// every admitted request that is not given back consumes one unit: at most limit of them may ever reach the handler in
+		// this window; requests that were given back (skip options) do not count
+		if counted := ran[k] - skippedRan[k]; counted > c.Limit {
+			return vk.Failf("%s: key %s: %d requests that count against the limit reached the handler (%d in total, %d of them given back), limit %d", ctx, k, counted, ran[k], skippedRan[k], c.Limit)
 		}
-		if ran[k] > c.Limit {
-			return vk.Failf("%s: key %s: %d requests reached the handler, limit %d", ctx, k, ran[k], c.Limit)
+		if !c.SkipOK && !c.SkipFail {
+			want := n + c.Tail
+			if want > c.Limit {
+				want = c.Limit
+			}
+			if ran[k] != want {
+				return vk.Failf("%s: key %s: %d of %d requests reached the handler, want %d (budget not exhausted => no rejection)", ctx, k, ran[k], n+c.Tail, want)
+			}
 		}
-		if ran[k] != want {
-			return vk.Failf("%s: key %s: %d of %d requests reached the handler, want %d (budget not exhausted => no rejection)", ctx, k, ran[k], n, want)
-		}
-		if n > c.Limit {
+		// with skip options no lower bound is asserted: whether rejected requests consume budget is left open by the statement
+		if n+c.Tail > c.Limit {
 			overlap = true
 		}
 	}
-	n429 := 0
-	for _, st := range statuses {
-		if st == 429 {
-			n429++
-		}
+	classes := []string{"algo:" + c.Algo, "store:" + c.Store, fmt.Sprintf("blocked-steps>0:%v", res.Blocked > 0)}
+	if c.SkipOK || c.SkipFail {
+		classes = append(classes, "skip-option")
 	}
-	return vk.Verdict{NonTrivial: overlap, Classes: []string{"algo:" + c.Algo, "store:" + c.Store, fmt.Sprintf("blocked-steps>0:%v", res.Blocked > 0)}}
+	return vk.Verdict{NonTrivial: overlap, Classes: classes}
 }
 
 var propConc = vk.Register(&vk.Prop[ConcCase]{Property: property, Name: "concurrent", Check: checkConc, Quick: 600, Thorough: 2500,
@@ -346,7 +376,17 @@ var propConc = vk.Register(&vk.Prop[ConcCase]{Property: property, Name: "concurr
 		c := ConcCase{Algo: rapid.SampledFrom([]string{"fixed", "sliding"}).Draw(t, "algo"), Store: rapid.SampledFrom([]string{"memory", "vk", "vk"}).Draw(t, "store"),
 			Limit: rapid.IntRange(1, 3).Draw(t, "limit")}
 		c.Keys = rapid.SliceOfN(rapid.SampledFrom([]string{"a", "a", "b"}), 2, 4).Draw(t, "keys")
-		c.Picks = rapid.SliceOfN(rapid.IntRange(0, 3), 0, 40).Draw(t, "picks")
+		c.Picks = rapid.SliceOfN(rapid.IntRange(0, 3), 0, 60).Draw(t, "picks")
+		switch rapid.IntRange(0, 2).Draw(t, "skip") {
+		case 0:
+			c.SkipFail = true
+		case 1:
+			c.SkipOK = true
+		}
+		for range c.Keys {
+			c.Statuses = append(c.Statuses, rapid.SampledFrom([]int{200, 200, 500}).Draw(t, "status"))
+		}
+		c.Tail = rapid.IntRange(0, 4).Draw(t, "tail")
 		return c
 	}})
 
